@@ -1,5 +1,7 @@
 package mcp
 
+import "encoding/json"
+
 // C19-H7: the result types with custom JSON methods (CallToolResult, GetPromptResult, ReadResourceResult). Each is
 // encoded by its real MarshalJSON (a local wire struct embedding the result, shadowing inputRequests, adding
 // resultType) and decoded by its real UnmarshalJSON (another local wire struct, for CallToolResult shadowing content
@@ -89,6 +91,49 @@ func zzC19Results() {
 			vAssert(g.Contents[0].URI == uri && g.Contents[0].Text == text, "C19.result.contents-roundtrip")
 		}
 		vReach("readresource")
+	}
+	vReach("end")
+}
+
+// C19 "decoding never panics", for the inputRequests member of the multi round-trip results (defect D22): documents a
+// peer may send — an entry that is null, an entry without params or with null params, a method this SDK does not know.
+type zzRawInputReq struct {
+	Method string `json:"method"`
+	Params InputRequest `json:"params,omitempty"`
+}
+
+func zzC19InputRequestsDecode() {
+	doc := map[string]*zzRawInputReq{}
+	known := true
+	null := false
+	either := false
+	switch vChoice("entry", 4) {
+	case 0:
+		doc["a"] = nil // {"a": null}
+		null = true
+	case 1:
+		doc["a"] = &zzRawInputReq{Method: methodListRoots, Params: &ListRootsParams{}}
+	case 2:
+		doc["a"] = &zzRawInputReq{Method: methodListRoots} // params absent: refused by today's decoder (nothing to decode), which the property allows — it must not crash
+		either = true
+	case 3:
+		doc["a"] = &zzRawInputReq{Method: "no/such-method", Params: &ListRootsParams{}}
+		known = false
+	}
+	var m InputRequestMap
+	data, merr := json.Marshal(doc)
+	vAssume(merr == nil)
+	err := m.UnmarshalJSON(data) // (a panic in here is reported as a violation by the engine)
+	if err == nil {
+		vAssert(known && !null, "C19.input-requests.unusable-entry-is-an-error")
+		vAssert(len(m) == len(doc), "C19.input-requests.every-entry-decoded")
+		for k := range doc {
+			vAssert(m[k] != nil, "C19.input-requests.every-entry-decoded")
+		}
+		vReach("decoded")
+	} else {
+		vAssert(!known || null || either, "C19.input-requests.usable-document-decodes")
+		vReach("refused")
 	}
 	vReach("end")
 }
